@@ -48,9 +48,9 @@ def poolH : H := fun j => do
     match kind with
     | "add_batch" => p := addBatch p (← pairsOf o "batch") (← getNat o "idx")
     | "remove_batch" =>
-      match removeBatch p (← getNat o "idx") with
-      | .ok q => p := q
-      | .error e => err := some (errStr e)
+      let r := removeBatch p (← getNat o "idx")
+      p := r.2
+      err := r.1.map errStr
     | "add_store" =>
       match addStore p (← getStr o "node") with
       | .ok q => p := q
@@ -60,9 +60,9 @@ def poolH : H := fun j => do
       | .ok q => p := q
       | .error e => err := some (errStr e)
     | "clear" =>
-      match clear p with
-      | .ok q => p := q
-      | .error e => err := some (errStr e)
+      let r := clear p
+      p := r.2
+      err := r.1.map errStr
     | "set_context" =>
       match setContext p (← getNat o "b") (← getNat o "seed") with
       | .ok q => p := q
